@@ -17,7 +17,7 @@ CONSTANTS Scheme, Cfg, MaxN
 Lens(q) == {q[i][1] : i \in 1..Len(q)}
 Sig(p) == IF Outcome(Scheme, p, Cfg) # "built" \/ ~Valid(Scheme, p, Cfg) THEN <<"refused">>
           ELSE LET sh == Shape(Scheme, p, Cfg) IN
-               <<"built", {<<sh[i].name, Lens(sh[i].k), IF sh[i].k = <<>> /\ Scheme = "DP17.Pi" THEN {} ELSE Lens(sh[i].v)>> : i \in 1..Len(sh)}>>
+               <<"built", CounterBytes(MaxCounter(Scheme, p, Cfg)), {<<sh[i].name, Lens(sh[i].k), IF sh[i].k = <<>> /\ Scheme = "DP17.Pi" THEN {} ELSE Lens(sh[i].v)>> : i \in 1..Len(sh)}>>
 Forms(n) == {<<n>>, <<n, 1>>, <<n, n>>}
 Next1(p) == [i \in 1..Len(p) |-> IF p[i] = 1 /\ i > 1 THEN 1 ELSE p[i] + 1]
 
